@@ -6,7 +6,7 @@ EXPLANATION = ("C01: encoder and decoder are shown to agree on what is carried a
                "field coverage of RawSourceMap on each decode path vs each writer; (R2) every decoded field reaches the map "
                "on every Ok path; (R3) the set of running variables reset per line is {generated column} on both sides; "
                "(R4) both sides use the v3 field order with deltas against the previously emitted value; (R5) sections and "
-               "the Hermes payload are carried both ways; (R6) only exact duplicates are dropped by the encoder.")
+               "the Hermes payload are carried both ways; (R6) only exact duplicates are dropped by the encoder; (R7) the root-joined name cache stays coherent with root and raw names; (R8) the VLQ reader accepts the writer's whole range (no extra rejections).")
 NOT_DECIDED = ("equality of the decoded values with the original, byte-for-byte idempotence and JSON string escaping (delegated to "
                "serde_json) are value-level statements.")
 
@@ -20,6 +20,9 @@ RULES = {
     "C01.R5e": lambda ctx: encrules.sections(ctx, "C01.R5e"),
     "C01.R5d": lambda ctx: bldrules.sections_sorted(ctx, "C01.R5d"),
     "C01.R6": lambda ctx: encrules.only_duplicates_skipped(ctx, "C01.R6"),
+    "C01.R7": lambda ctx: bldrules.cache_coherence(ctx, "C01.R7"),
+    "C01.R8": lambda ctx: __import__("rules.vlqrules", fromlist=["x"]).reader_shape(ctx, "C01.R8"),
+    "C01.R8w": lambda ctx: __import__("rules.vlqrules", fromlist=["x"]).writer_shape(ctx, "C01.R8w"),
 }
 
 
